@@ -1168,6 +1168,21 @@ fn native_spec() {
                 }
             }
         }
+    } else if target == "styled_wrap_trim" {
+        // C20: wrapping keeps the author's leading whitespace / blank lines; only the end is trimmed; no line exceeds the width
+        for (text, width) in [("  foo bar", 6usize), ("\n\nfoo bar baz", 7), ("    indented text here", 12), ("plain words only", 8), ("tail   ", 10)] {
+            let mut cmd = Command::new("p").disable_help_flag(true).about(text).help_template("X\n{about}").term_width(width);
+            let h = cmd.render_help().to_string();
+            let body = h.strip_prefix("X\n").unwrap_or(&h);
+            let lead_in: String = text.chars().take_while(|c| c.is_whitespace()).collect();
+            let lead_out: String = body.chars().take_while(|c| c.is_whitespace()).collect();
+            let too_wide = body.lines().any(|l| l.trim_end().chars().count() > width && l.trim().contains(' '));
+            let words_in: Vec<&str> = text.split_whitespace().collect();
+            let words_out: Vec<&str> = body.split_whitespace().collect();
+            if lead_in != lead_out || too_wide || words_in != words_out {
+                println!("SPEC-REPLAY MISMATCH target=styled_wrap_trim case=about {text:?} at width {width}: rendered {body:?} (leading whitespace {lead_out:?}, expected {lead_in:?})");
+            }
+        }
     } else if target == "match_arg_error" {
         // C10: the error kind names a rule the input really breaks
         for acws in [false, true] {
